@@ -1,7 +1,7 @@
 (** C15 part B — lemmas about the queue model: [replace_queue_entries] on a canonical queue. *)
 From V.Lib Require Import Base.
 From V.Gen Require Import C15Tables.
-From V.C15 Require Import Model Spec Sem QModel Proofs ProofsTree ProofsVec ProofsSeq ProofsCanon.
+From V.C15 Require Import Model Spec Sem QModel Proofs ProofsTree ProofsVec ProofsSeq ProofsCanon ProofsEmpty.
 From Coq Require Import ZifyBool.
 Local Open Scope Z_scope.
 
@@ -358,15 +358,15 @@ Lemma fold_spec_app_q a b : forall st, fold_spec st (a ++ b) = fold_spec (fold_s
 Proof. induction a as [|[[[s e] p] f] a IH]; intros st; cbn [app fold_spec]; auto. Qed.
 
 (** *** replace_queue_entries when the query selects at least one row *)
-Lemma replace_sel qs qe f b r0 s' a es l :
+Lemma replace_sel qs qe f b r0 s' a es tl :
   chain (b ++ (r0 :: s') ++ a) -> qs <= qe ->
   (forall r, In r b -> re r < qs) ->
   (forall r, In r (r0 :: s') -> rs r <= qe /\ qs <= re r) ->
   (forall r, In r a -> qe < rs r) ->
-  Forall nonempty es -> valid l -> Forall (within qs qe) (es ++ [l]) ->
-  exists v, replace_queue_entries (b ++ (r0 :: s') ++ a) qs qe (es ++ [l]) f = Ok (b ++ v ++ a) /\
+  Forall nonempty es -> Forall emptyr tl -> Forall (within qs qe) (es ++ tl) ->
+  exists v, replace_queue_entries (b ++ (r0 :: s') ++ a) qs qe (es ++ tl) f = Ok (b ++ v ++ a) /\
     chain (b ++ v ++ a) /\ chain v /\ v <> [] /\
-    let S := fold_spec (seg_state (r0 :: s')) (entry_ops f (es ++ [l])) in
+    let S := fold_spec (seg_state (r0 :: s')) (entry_ops f (es ++ tl)) in
     rows_lo (map row_of v) = Some (lo S) /\ rows_hi (map row_of v) = Some (hi S) /\
     forall h, rows_at (map row_of v) h = pm S h.
 Proof.
@@ -384,18 +384,21 @@ Proof.
     - apply (chain_nonempty _ Cs). right. exact Ir.
     - rewrite Forall_forall in Nes. auto. }
   assert (N0 : wf (Leaf r0)) by (cbn [wf]; apply (chain_nonempty _ Cs); left; reflexivity).
-  replace (map (fun r => (r, f)) (s' ++ es ++ [l])) with (map (fun r => (r, f)) (s' ++ es) ++ [(l, f)])
-    by (rewrite (app_assoc s' es [l]), (map_app _ (s' ++ es) [l]); reflexivity).
-  destruct (tinsert_all_last_spec _ l f (Leaf r0) N0 Ns' Vl) as (t & -> & Wt & St).
+  replace (map (fun r => (r, f)) (s' ++ es ++ tl)) with (map (fun r => (r, f)) (s' ++ es) ++ map (fun r => (r, f)) tl)
+    by (rewrite (app_assoc s' es tl), (map_app _ (s' ++ es) tl); reflexivity).
+  assert (Ntl : Forall (fun o : sr * bool => emptyr (fst o)) (map (fun r => (r, f)) tl)).
+  { apply Forall_forall. intros o Io. apply in_map_iff in Io. destruct Io as (r & <- & Ir). cbn [fst].
+    rewrite Forall_forall in Vl. auto. }
+  destruct (tinsert_all_tail_spec _ _ (Leaf r0) N0 Ns' Ntl) as (t & -> & Wt & St).
   destruct (into_vec_spec t Wt) as (v & -> & Cv & Pv & Bv). cbn [of_opt bind].
   fold (chain v) in Cv.
   (* the specification state *)
-  set (S := fold_spec (seg_state s) (entry_ops f (es ++ [l]))).
+  set (S := fold_spec (seg_state s) (entry_ops f (es ++ tl))).
   assert (ES : st_eq (st_of t) S).
   { eapply st_eq_trans; [exact St|]. unfold S, entry_ops.
-    replace (map op_row (map (fun r => (r, f)) (s' ++ es) ++ [(l, f)]))
-      with (map (fun r => op_row (r, f)) s' ++ map (fun r => op_row (r, f)) (es ++ [l])).
-    2:{ rewrite !map_app, !map_map. cbn [map]. rewrite <- app_assoc. reflexivity. }
+    replace (map op_row (map (fun r => (r, f)) (s' ++ es) ++ map (fun r => (r, f)) tl))
+      with (map (fun r => op_row (r, f)) s' ++ map (fun r => op_row (r, f)) (es ++ tl)).
+    2:{ rewrite !map_app, !map_map. rewrite <- app_assoc. reflexivity. }
     rewrite fold_spec_app_q. apply fold_spec_ext.
     destruct (chain_cons_inv _ _ Cs) as (Nr0 & Cs' & J). unfold nonempty in Nr0.
     destruct (fold_chain f s' (st_of (Leaf r0)) Cs') as (A & B & _ & P).
@@ -412,7 +415,7 @@ Proof.
   (* S1 = the selected rows *)
   assert (Nr0 : rs r0 < re r0) by (apply (chain_nonempty _ Cs); left; reflexivity).
   assert (P0 : forall h c, rows_at (map row_of s) h = Some c ->
-                 (forall e, In e (es ++ [l]) -> in_range (rs e) (re e) h = false) -> pm S h = Some c).
+                 (forall e, In e (es ++ tl) -> in_range (rs e) (re e) h = false) -> pm S h = Some c).
   { intros h c E H. unfold S. apply fold_keep; [exact E|]. intros o Io. unfold entry_ops in Io.
     apply in_map_iff in Io. destruct Io as (e & <- & Ie). cbn [op_row fst row_of row_in]. auto. }
   assert (Vne : v <> []).
@@ -525,11 +528,11 @@ Definition touches (q : list sr) (qs qe : Z) : Prop := exists r, In r q /\ rs r 
 Definition replace_state (q : list sr) (qs qe : Z) (entries : list sr) (f : bool) : pstate :=
   fold_spec (seg_state (filter (selp qs qe) q)) (entry_ops f entries).
 
-Lemma replace_touching q qs qe es l f :
+Lemma replace_touching_g q qs qe es tl f :
   chain q -> qs <= qe -> touches q qs qe ->
-  Forall nonempty es -> valid l -> Forall (within qs qe) (es ++ [l]) ->
-  exists q', replace_queue_entries q qs qe (es ++ [l]) f = Ok q' /\ chain q' /\ q' <> [] /\
-    let S := replace_state q qs qe (es ++ [l]) f in
+  Forall nonempty es -> Forall emptyr tl -> Forall (within qs qe) (es ++ tl) ->
+  exists q', replace_queue_entries q qs qe (es ++ tl) f = Ok q' /\ chain q' /\ q' <> [] /\
+    let S := replace_state q qs qe (es ++ tl) f in
     (forall h, rows_at (map row_of q') h = if in_range (lo S) (hi S) h then pm S h else rows_at (map row_of q) h) /\
     (forall h, in_range (lo S) (hi S) h = true ->
                rows_at (map row_of q) h = rows_at (map row_of (filter (selp qs qe) q)) h).
@@ -538,10 +541,10 @@ Proof.
   destruct (split3 qs qe q C L) as (b & s & a & -> & Hb & Hs & Ha).
   destruct s as [|r0 s'].
   { exfalso. cbn [app] in *. apply in_app_or in Ir. destruct Ir as [I|I]; [pose proof (Hb r I)|pose proof (Ha r I)]; lia. }
-  destruct (replace_sel qs qe f b r0 s' a es l C L Hb Hs Ha Nes Vl W) as (v & E & Cq' & Cv & Vne & BLo & BHi & Pv).
+  destruct (replace_sel qs qe f b r0 s' a es tl C L Hb Hs Ha Nes Vl W) as (v & E & Cq' & Cv & Vne & BLo & BHi & Pv).
   exists (b ++ v ++ a). split; [exact E|]. split; [exact Cq'|]. split; [destruct b; [destruct v; [congruence|discriminate]|discriminate]|].
   unfold replace_state. destruct (filters_of_split qs qe b (r0 :: s') a C Hb Hs Ha) as (F1 & _). rewrite F1.
-  set (S := fold_spec (seg_state (r0 :: s')) (entry_ops f (es ++ [l]))) in *. cbv zeta in *.
+  set (S := fold_spec (seg_state (r0 :: s')) (entry_ops f (es ++ tl))) in *. cbv zeta in *.
   rewrite rows_lo_hd in BLo. rewrite rows_hi_last in BHi.
   destruct (hd_opt v) as [v1|] eqn:Hv1; [|discriminate]. destruct (last_opt v) as [vl|] eqn:Hvl; [|discriminate].
   cbn [option_map] in BLo, BHi. injection BLo as BLo. injection BHi as BHi.
@@ -575,4 +578,115 @@ Proof.
     rewrite (chain_outside (r0 :: s') r0 rl h Cs eq_refl Hrl) by lia. reflexivity.
   - rewrite (chain_outside v v1 vl h Cv Hv1 Hvl) by lia.
     rewrite (chain_outside (r0 :: s') r0 rl h Cs eq_refl Hrl) by lia. reflexivity.
+Qed.
+
+(** *** further pointwise consequences *)
+Lemma dom_cases c p f : dom c p f = c \/ dom c p f = p.
+Proof. destruct c, p, f; cbn; auto. Qed.
+
+Lemma fold_no_new_ignored ops : forall st h,
+  (forall o, In o ops -> snd (fst o) <> Ignored) ->
+  pm (fold_spec st ops) h = Some Ignored -> pm st h = Some Ignored.
+Proof.
+  induction ops as [|[[[s e] p] f] ops IH]; intros st h H E; [exact E|]. cbn [fold_spec] in E.
+  apply IH in E; [|intros; apply H; right; assumption].
+  pose proof (H _ (or_introl eq_refl)) as Np. cbn [fst snd] in Np.
+  cbn [ins_spec pm] in E. destruct (in_range s e h).
+  - destruct (pm st h) as [c|]; [|congruence]. destruct (dom_cases c p f) as [D|D]; rewrite D in E; congruence.
+  - destruct (pm st h) as [c|]; [exact E|]. destruct (in_range _ _ h); discriminate.
+Qed.
+
+Lemma fold_covers_entry ops : forall st o h, In o ops -> row_in (fst o) h = true -> pm (fold_spec st ops) h <> None.
+Proof.
+  induction ops as [|[[[s e] p] f] ops IH]; intros st o h I R; [destruct I|]. cbn [fold_spec]. destruct I as [<-|I].
+  - apply fold_covered. cbn [fst row_in] in R. cbn [ins_spec pm]. rewrite R. discriminate.
+  - eapply IH; eauto.
+Qed.
+
+Lemma fold_lo_le_entry_q ops : forall st o, In o ops -> lo (fold_spec st ops) <= fst (fst (fst o)).
+Proof.
+  induction ops as [|[[[s e] p] f] ops IH]; intros st o I; [destruct I|]. cbn [fold_spec]. destruct I as [<-|I].
+  - cbn [fst]. etransitivity; [apply fold_lo_le|]. cbn [ins_spec lo]. lia.
+  - apply IH. exact I.
+Qed.
+Lemma fold_hi_ge_entry_q ops : forall st o, In o ops -> snd (fst (fst o)) <= hi (fold_spec st ops).
+Proof.
+  induction ops as [|[[[s e] p] f] ops IH]; intros st o I; [destruct I|]. cbn [fold_spec]. destruct I as [<-|I].
+  - cbn [fst snd]. etransitivity; [|apply fold_hi_ge]. cbn [ins_spec hi]. lia.
+  - apply IH. exact I.
+Qed.
+
+Lemma replace_touching_facts_g q qs qe es tl f :
+  chain q -> qs <= qe -> touches q qs qe ->
+  Forall nonempty es -> Forall emptyr tl -> Forall (within qs qe) (es ++ tl) ->
+  exists q', replace_queue_entries q qs qe (es ++ tl) f = Ok q' /\ chain q' /\ q' <> [] /\
+    let S := replace_state q qs qe (es ++ tl) f in
+    (forall h, rows_at (map row_of q') h = if in_range (lo S) (hi S) h then pm S h else rows_at (map row_of q) h) /\
+    (forall h, in_range (lo S) (hi S) h = true ->
+               rows_at (map row_of q) h = rows_at (map row_of (filter (selp qs qe) q)) h) /\
+    (forall h, rows_at (map row_of q) h <> None -> rows_at (map row_of q') h <> None) /\
+    (forall e h, In e (es ++ tl) -> in_range (rs e) (re e) h = true -> rows_at (map row_of q') h <> None) /\
+    ((forall e, In e (es ++ tl) -> rp e <> Ignored) ->
+     forall h, rows_at (map row_of q') h = Some Ignored -> rows_at (map row_of q) h = Some Ignored).
+Proof.
+  intros C L T Nes Vl W.
+  destruct (replace_touching_g q qs qe es tl f C L T Nes Vl W) as (q' & E & Cq' & NE & P & P2).
+  exists q'. split; [exact E|]. split; [exact Cq'|]. split; [exact NE|]. cbv zeta in *.
+  set (S := replace_state q qs qe (es ++ tl) f) in *.
+  split; [exact P|]. split; [exact P2|]. split; [|split].
+  - intros h Hc. rewrite P. destruct (in_range (lo S) (hi S) h) eqn:In; [|exact Hc].
+    rewrite (P2 h In) in Hc. unfold S, replace_state. apply fold_covered. exact Hc.
+  - intros e h Ie Re.
+    assert (Ic : pm S h <> None).
+    { unfold S, replace_state. apply (fold_covers_entry _ _ (op_row (e, f))); [unfold entry_ops; apply (in_map (fun r => op_row (r, f))); exact Ie|].
+      cbn [op_row fst row_of row_in]. exact Re. }
+    rewrite P. destruct (in_range (lo S) (hi S) h) eqn:In; [exact Ic|]. exfalso.
+    assert (lo S <= rs e).
+    { unfold S, replace_state. apply (fold_lo_le_entry_q _ _ (op_row (e, f))). unfold entry_ops. apply (in_map (fun r => op_row (r, f))). exact Ie. }
+    assert (re e <= hi S).
+    { unfold S, replace_state. apply (fold_hi_ge_entry_q _ _ (op_row (e, f))). unfold entry_ops. apply (in_map (fun r => op_row (r, f))). exact Ie. }
+    unfold in_range in *. lia.
+  - intros NI h Hi. rewrite P in Hi. destruct (in_range (lo S) (hi S) h) eqn:In; [|exact Hi].
+    rewrite (P2 h In). unfold S, replace_state in Hi. apply fold_no_new_ignored in Hi; [exact Hi|].
+    intros o Io. unfold entry_ops in Io. apply in_map_iff in Io. destruct Io as (e & <- & Ie). cbn. apply NI. exact Ie.
+Qed.
+
+(** the form used by the wallet: all entries non-empty except possibly the last *)
+Lemma last_split es l : Forall nonempty es -> valid l ->
+  exists es' tl, es ++ [l] = es' ++ tl /\ Forall nonempty es' /\ Forall emptyr tl.
+Proof.
+  intros N V. destruct (Z_lt_le_dec (rs l) (re l)) as [Ne|Em].
+  - exists (es ++ [l]), []. rewrite app_nil_r. split; [reflexivity|]. split; [|constructor].
+    apply Forall_app. split; [exact N|]. constructor; [exact Ne|constructor].
+  - exists es, [l]. split; [reflexivity|]. split; [exact N|]. constructor; [unfold emptyr, valid in *; lia|constructor].
+Qed.
+
+Lemma replace_touching_facts q qs qe es l f :
+  chain q -> qs <= qe -> touches q qs qe ->
+  Forall nonempty es -> valid l -> Forall (within qs qe) (es ++ [l]) ->
+  exists q', replace_queue_entries q qs qe (es ++ [l]) f = Ok q' /\ chain q' /\ q' <> [] /\
+    let S := replace_state q qs qe (es ++ [l]) f in
+    (forall h, rows_at (map row_of q') h = if in_range (lo S) (hi S) h then pm S h else rows_at (map row_of q) h) /\
+    (forall h, in_range (lo S) (hi S) h = true ->
+               rows_at (map row_of q) h = rows_at (map row_of (filter (selp qs qe) q)) h) /\
+    (forall h, rows_at (map row_of q) h <> None -> rows_at (map row_of q') h <> None) /\
+    (forall e h, In e (es ++ [l]) -> in_range (rs e) (re e) h = true -> rows_at (map row_of q') h <> None) /\
+    ((forall e, In e (es ++ [l]) -> rp e <> Ignored) ->
+     forall h, rows_at (map row_of q') h = Some Ignored -> rows_at (map row_of q) h = Some Ignored).
+Proof.
+  intros C L T Nes Vl W. destruct (last_split es l Nes Vl) as (es' & tl & E & N' & Etl). rewrite E in *.
+  apply replace_touching_facts_g; assumption.
+Qed.
+
+Lemma replace_touching q qs qe es l f :
+  chain q -> qs <= qe -> touches q qs qe ->
+  Forall nonempty es -> valid l -> Forall (within qs qe) (es ++ [l]) ->
+  exists q', replace_queue_entries q qs qe (es ++ [l]) f = Ok q' /\ chain q' /\ q' <> [] /\
+    let S := replace_state q qs qe (es ++ [l]) f in
+    (forall h, rows_at (map row_of q') h = if in_range (lo S) (hi S) h then pm S h else rows_at (map row_of q) h) /\
+    (forall h, in_range (lo S) (hi S) h = true ->
+               rows_at (map row_of q) h = rows_at (map row_of (filter (selp qs qe) q)) h).
+Proof.
+  intros C L T Nes Vl W. destruct (last_split es l Nes Vl) as (es' & tl & E & N' & Etl). rewrite E in *.
+  apply replace_touching_g; assumption.
 Qed.
